@@ -68,13 +68,26 @@ let regex_of (v : t) : Dot.regex =
       { Dot.r_root = n_ r; r_inputs = List.map rinput_of ins; r_nodes = List.map rnode_of nodes }
   | v -> raise (Shape ("regex: " ^ to_string v))
 
-(* (ok <regex> (pool (id <regex>)...)) *)
+(* (ok <regex> (pool (id <regex>)...)).  The same payload is also read by the regex package's reader
+   (Drv_regex.regex_of, into Model/Regex.v's types) and sent through the extracted forgetful view
+   Model/DotOfRegex.v: both routes must give the same arena (this ties conv_regex / conv_pool, over
+   which C16_regex_dot_model is stated, to the data on every run). *)
 let regex_payload (v : t) : Dot.rpool * Dot.regex =
   match v with
   | List [Atom "ok"; r; List (Atom "pool" :: pool)] ->
-      (List.map (fun p -> match p with
+      let direct_pool = List.map (fun p -> match p with
            | List [i; r] -> (n_ i, regex_of r)
-           | _ -> raise (Shape "pool entry")) pool, regex_of r)
+           | _ -> raise (Shape "pool entry")) pool in
+      let direct = regex_of r in
+      let via = Extracted.DotOfRegex.conv_regex (Drv_regex.regex_of r) in
+      if via <> direct then raise (Failure "DotOfRegex.conv_regex disagrees with the direct reading of the arena");
+      let ids = List.map (fun (i, _) -> int_of_n i) direct_pool in
+      if ids = List.init (List.length ids) (fun k -> k) then begin
+        let via_pool = Extracted.DotOfRegex.conv_pool
+            (List.map (fun p -> match p with List [_; r] -> Drv_regex.regex_of r | _ -> raise (Shape "pool entry")) pool) in
+        if via_pool <> direct_pool then raise (Failure "DotOfRegex.conv_pool disagrees with the direct reading of the pool")
+      end;
+      (direct_pool, direct)
   | v -> raise (Shape ("regex payload: " ^ to_string v))
 
 let ritem_of (i : Dot.rinput) : DotSpec.ritem =
